@@ -1,5 +1,6 @@
 (** Runner for the C09 correspondence.
     list                         -> labels of the catalogue entries (Class.name@variant)
+    fp <label>                   -> element paths the setter may create or remove
     seq <state> <ops>            -> one result per operation, then # and the final state
        state : entries separated by |   path@attr=cp.cp.cp   or   path   (element present)
                path = tags separated by / (empty for the anchor), text as code points
@@ -99,8 +100,26 @@ Fixpoint run_ops (ops : list str) (s : st) (acc : list str) : st * list str :=
   | op :: r => let '(s', out) := run_op op s in run_ops r s' (out :: acc)
   end.
 
+(** element paths a setter may create or remove (not those it only dereferences) *)
+Definition region_path (r : region) : list path :=
+  match r with
+  | RKey (p, None) => [p]
+  | RKey (_, Some _) => []
+  | RSub p => [p]
+  end.
+Definition footprint_paths (e : entry) : list path :=
+  filter (fun p => negb (existsb (path_eqb p) (required_paths (e_set e))))
+         (flat_map region_path (writes (e_set e))).
+
 Definition run_c09 (args : list str) : str :=
   match args with
+  | [op; lbl] =>
+      if str_eqb op [102; 112]%N then                    (* fp *)
+        match find_entry lbl with
+        | Some e => join_with [c_bar'] (map show_path (footprint_paths e))
+        | None => w_badcase
+        end
+      else w_badcase
   | [op] =>
       if str_eqb op [108; 105; 115; 116]%N               (* list *)
       then join_with [c_bar'] (map entry_label catalogue)
